@@ -1,8 +1,11 @@
 //! Stand-in for `rustfmt` on the simulated PATH. Mode from VERIF_RUSTFMT_MODE:
-//! pass (stdin -> stdout unchanged), fail (exit 1), nonutf8 (bytes that are not UTF-8, exit 0),
+//! pass (stdin -> stdout, broken into lines: see pretty.rs), fail (exit 1), nonutf8 (bytes that are not UTF-8, exit 0),
 //! killed (consumes stdin, prints nothing, dies from SIGKILL), killedpartial (prints the first half
 //! of its input, then dies from SIGKILL) — a formatter taken down by the OOM killer or a CI timeout.
 use std::io::{Read, Write};
+
+#[path = "../pretty.rs"]
+mod pretty;
 
 extern "C" {
     fn raise(sig: i32) -> i32;
@@ -32,7 +35,8 @@ fn main() {
             }
         }
         _ => {
-            let _ = std::io::stdout().write_all(&input);
+            let text = String::from_utf8_lossy(&input);
+            let _ = std::io::stdout().write_all(pretty::pretty(&text).as_bytes());
         }
     }
 }
